@@ -393,6 +393,203 @@ def oracle(ops: list[tuple], out: list[str]) -> list[str]:
     return msgs
 
 
+# ---------------------------------------------------------------------------------------------------------------
+# The TEXT of genuine commands: empty, whitespace only, Python statements and `p` expressions with a countable effect
+# on the script's state, the same text at consecutive prompts.  Every command is addressed to exactly one prompt, so
+# the script's state (seen through `p (hits, x)` in the text of the following prompt, and through the script's last
+# line of output) must be the one in which every addressed command was executed once, at its own prompt.
+# ---------------------------------------------------------------------------------------------------------------
+
+TEXT_PROBE = 'p (hits, x)'
+TEXT_RESUMING = ('next', 'step', 'continue')
+TEXT_NLINES = 40
+TEXT_SCRIPT = ('hits = []; x = 0\n' + ''.join(f'v{i} = {i}\n' for i in range(TEXT_NLINES)) + "print('HITS', hits, 'X', x)\n")
+# The unchanged library hands a whitespace-only command (' ', '\t', '\n') to Pdb as it is, and to cmd.Cmd a blank line
+# means "repeat the last command" (emptyline): the command addressed to the trace's previous prompt runs again.  That is
+# existing behaviour (reported as an observation in the coverage histogram 'whitespace_only_command'), so the oracle
+# accepts both outcomes for a NON-empty blank command.  An empty command ('') is end-of-file to Pdb: the debugger quits
+# (bdb.BdbQuit in the script); accepted are "quit" and "nothing happens", never a re-execution.
+TEXT_BLANK_MAY_REPEAT = False
+
+
+def _text_effects(c: str, st: tuple) -> list[tuple]:
+    """What command text `c` may do to the state st = (hits, x, last non-blank command of the trace, blank repeats):
+    a list of (state', output or None = not compared, the trace moves on, the debugger quits)."""
+    import re
+    hits, x, last, reps = st
+    if c == '':
+        return [(st, None, False, True), (st, '', False, False)]
+    if not c.strip():
+        alts = [(st, '', False, False)]
+        if TEXT_BLANK_MAY_REPEAT and last:
+            alts += [((h, xx, last, reps + 1), o, m, q) for (h, xx, _l, _r), o, m, q in _text_effects(last, st)]
+        return alts
+    s = c.strip()
+    if s in TEXT_RESUMING:
+        return [((hits, x, s, reps), None, True, False)]
+    m = re.fullmatch(r'(p )?hits\.append\((\d+)\)', s)
+    if m:
+        return [((hits + (int(m[2]),), x, s, reps), 'None\n' if m[1] else '', False, False)]
+    if s == '!x = x + 1':
+        return [((hits, x + 1, last, reps), '', False, False)]       # cmd.Cmd does not remember a line that starts with '!'
+    if s == TEXT_PROBE:
+        return [((hits, x, s, reps), repr((list(hits), x)) + '\n', False, False)]
+    raise ValueError(f'command text outside the vocabulary of this scenario: {c!r}')
+
+
+def _text_class(c: str) -> str:
+    if c == '':
+        return 'empty'
+    if not c.strip():
+        return 'whitespace-only'
+    if c in TEXT_RESUMING:
+        return 'resuming'
+    if c == TEXT_PROBE:
+        return 'p-expression-readonly'
+    return 'p-expression-with-effect' if c.startswith('p ') else 'python-statement'
+
+
+def gen_text_sequences(chk: common.Check) -> list[list[str]]:
+    """Per-trace command sequences (the i-th prompt of the trace is answered with the i-th text, 'continue' afterwards)."""
+    rng = chk.rng
+    seqs = [
+        ['next', 'next', 'hits.append(1)', '', TEXT_PROBE, 'next', TEXT_PROBE],                     # '' after a statement
+        ['step', 'p hits.append(2)', '', TEXT_PROBE],                                                 # '' after a p-expression with an effect
+        ['next', '!x = x + 1', '!x = x + 1', TEXT_PROBE, '', 'next', TEXT_PROBE],                    # same text twice; '' after a read-only p
+        ['', 'next', TEXT_PROBE],                                                                         # '' as the trace's very first command
+        ['next', 'next', '', TEXT_PROBE],                                                             # '' after a resuming command
+        ['next', 'hits.append(3)', ' ', TEXT_PROBE, '\t', 'next', TEXT_PROBE],                       # whitespace only
+        ['next', 'hits.append(4)', 'hits.append(4)', 'hits.append(4)', TEXT_PROBE, '\n', TEXT_PROBE],  # same text three times; a newline
+        ['  ', 'step', TEXT_PROBE, 'p hits.append(5)', 'p hits.append(5)', TEXT_PROBE, '', 'next'],
+    ]
+    for _ in range(4 if chk.tier == 'quick' else 52):
+        seq: list[str] = []
+        n = rng.randint(4, 9)
+        empty_at = rng.randint(2, n) if rng.random() < 0.7 else -1
+        while len(seq) < n:
+            r = rng.random()
+            if len(seq) == empty_at:
+                c = ''
+            elif not any(q in TEXT_RESUMING for q in seq) and r >= 0.45:
+                c = rng.choice(['next', 'step', ' ', '\t'])      # hits and x exist once the script's first line has run
+            elif seq and seq[-1] not in TEXT_RESUMING and seq[-1].strip() and r < 0.2:
+                c = seq[-1]                                    # the same text at consecutive prompts
+            elif r < 0.45:
+                c = rng.choice(['next', 'step'])
+            elif r < 0.6:
+                c = f'hits.append({rng.randint(1, 3)})'
+            elif r < 0.7:
+                c = f'p hits.append({rng.randint(1, 3)})'
+            elif r < 0.8:
+                c = '!x = x + 1'
+            elif r < 0.9:
+                c = TEXT_PROBE
+            else:
+                c = rng.choice([' ', '   ', '\t', '\n', ' \n'])
+            seq.append(c)
+        seqs.append(seq + [TEXT_PROBE, 'next', TEXT_PROBE])
+    return seqs
+
+
+def texts_oracle(rec: dict) -> tuple[list[str], dict]:
+    """Recorded == addressed at every prompt, and the script's state as seen after every command is the one in which every
+    addressed command was executed exactly once while its own prompt was open (see `_text_effects`)."""
+    import ast
+    import re
+    msgs: list[str] = []
+    info: dict = {'addressed': [], 'blank_repeated': False}
+    prompts = [h['event'] for h in rec['hooks'] if h['hook'] == 'on_start_prompt']
+    genuine = {(t, p): c for t, p, c in rec['commands_sent'] if 'DECOY' not in c}
+    closed: dict = {}
+    for h in rec['hooks']:
+        if h['hook'] == 'on_start_prompt' and 'DECOY' in h['event']['prompt_text']:
+            msgs.append(f"a decoy command was executed: its output appears in the text of prompt {h['event']['prompt_no']}")
+        if h['hook'] == 'on_end_prompt':
+            e = h['event']
+            k = (e['trace_no'], e['prompt_no'])
+            if k in closed:
+                msgs.append(f'prompt {k} was closed twice: with {closed[k]!r} and with {e["command"]!r}')
+            closed[k] = e['command']
+            if genuine.get(k) != e['command']:
+                msgs.append(f"prompt {k} closed with {e['command']!r}; addressed to it: {genuine.get(k)!r}")
+    if len({e['trace_no'] for e in prompts}) > 1:
+        return msgs + ['the scenario failed: the one-thread script was prompted in more than one trace'], info
+    states: set = {(((), 0, '', 0), False)}
+    for i, e in enumerate(prompts):
+        k = (e['trace_no'], e['prompt_no'])
+        if k not in genuine:
+            break
+        c = genuine[k]
+        info['addressed'].append([k[0], k[1], c])
+        nxt = prompts[i + 1] if i + 1 < len(prompts) else None
+        new: set = set()
+        expected = []
+        for st, _q in states:
+            for st2, out, moves, quits in _text_effects(c, st):
+                if nxt is None:
+                    new.add((st2, quits))
+                elif quits:
+                    expected.append('no further prompt (the debugger quits)')
+                elif moves:
+                    new.add((st2, False))
+                else:
+                    expected.append(f"{out + '(Pdb) '!r} at line {e['line_no']}")
+                    if nxt['line_no'] == e['line_no'] and nxt['prompt_text'] == out + '(Pdb) ':
+                        new.add((st2, False))
+        if not new:
+            why = ''
+            m = re.match(r'\((\[[\d, ]*\]), (\d+)\)\n', nxt['prompt_text'])       # the output of the probe
+            counts = _text_counts(info['addressed'], ast.literal_eval(m[1]), int(m[2])) if m else ''
+            if counts:
+                why = ' — ' + counts
+            elif nxt['line_no'] != e['line_no']:
+                why = ' — the trace moved on although the command addressed to this prompt does not resume the script'
+            elif c.strip() != TEXT_PROBE and nxt['prompt_text'] != '(Pdb) ':
+                why = ' — output appears that the command addressed to this prompt does not produce'
+            msgs.append(f"command texts: prompt {k} (line {e['line_no']}) was answered with {c!r}; the trace's next prompt shows "
+                        f"{nxt['prompt_text']!r} at line {nxt['line_no']}; with every addressed command executed once, at its own prompt: "
+                        f"{' or '.join(sorted(set(expected)))}{why}; addressed so far: {[a[2] for a in info['addressed']]}")
+            return msgs, info
+        states = new
+    out_text = ''.join(h['event']['text'] for h in rec['hooks'] if h['hook'] == 'on_write_stdout')
+    m = re.search(r'HITS (\[[\d, ]*\]) X (\d+)', out_text)
+    if m:
+        seen_hits, seen_x = tuple(ast.literal_eval(m[1])), int(m[2])
+        final = {(st, q) for st, q in states if not q and st[0] == seen_hits and st[1] == seen_x}
+        if not final:
+            msgs.append(f'command texts: the script ended with hits={list(seen_hits)} x={seen_x}; with every addressed command executed once, at its own '
+                        f'prompt: {sorted({(list(st[0]), st[1]) for st, q in states if not q})} — '
+                        f"{_text_counts(info['addressed'], list(seen_hits), seen_x) or 'the order of the effects differs'}; addressed:{[a[2] for a in info['addressed']]}")
+            return msgs, info
+    else:
+        final = {(st, q) for st, q in states if q}
+        if not final:
+            msgs.append(f"the scenario failed: the script's last line of output is missing although no addressed command makes the debugger quit; "
+                        f"stdout {out_text[-200:]!r}, exception {str(rec.get('exception'))[-120:]!r}")
+            return msgs, info
+    info['blank_repeated'] = all(st[3] > 0 for st, _q in final)
+    info['quit'] = all(q for _st, q in final)
+    return msgs, info
+
+
+def _text_counts(addressed: list, seen_hits: list, seen_x: int) -> str:
+    """'<text> was addressed to n prompt(s), executed m time(s)' for the texts whose effect count differs."""
+    import re
+    out = []
+    want: dict = {}
+    for _t, _p, c in addressed:
+        m = re.fullmatch(r'(?:p )?hits\.append\((\d+)\)', c.strip())
+        if m:
+            want[int(m[1])] = want.get(int(m[1]), 0) + 1
+    for v in sorted(set(want) | set(seen_hits)):
+        if want.get(v, 0) != seen_hits.count(v):
+            out.append(f'hits.append({v}) was addressed to {want.get(v, 0)} prompt(s), executed {seen_hits.count(v)} time(s)')
+    nx = sum(1 for _t, _p, c in addressed if c.strip() == '!x = x + 1')
+    if nx != seen_x:
+        out.append(f"'!x = x + 1' was addressed to {nx} prompt(s), executed {seen_x} time(s)")
+    return '; '.join(out)
+
+
 def run(chk: common.Check) -> None:
     chk.cov.rule = ('command streams against simulated traces: all streams of length ≤ 3/4 over {genuine, stale, duplicate, future, other-trace, '
                     'unknown-trace} for 2 traces with 1–2 open prompts, then seeded random op sequences (start/end trace, open prompt, send) over '
@@ -507,6 +704,43 @@ def run(chk: common.Check) -> None:
         chk.cov.count('real_prompts', 'n', nprompts)
         if msgs:
             oracle_fail.append(({'real_run': r['spec']}, msgs, None))
+
+    # the TEXT of the genuine commands: empty, whitespace only, statements / p-expressions with a countable effect, the same
+    # text at consecutive prompts; every second run with decoys around every genuine answer
+    chk.cov.rule += (' Plus real-child runs of a straight-line script whose prompts are answered with unusual command texts (empty, whitespace '
+                     'only, Python statements and p-expressions that change the script\'s state, identical texts at consecutive prompts): '
+                     'fixed sequences and seeded random ones; distinct = distinct sequence of texts.')
+    tspecs = [{'statement': TEXT_SCRIPT, 'policy': {'kind': 'seq', 'commands': seq, 'then': 'continue'}, 'decoys': i % 2 == 1, 'timeout': 60}
+              for i, seq in enumerate(gen_text_sequences(chk))]
+    for r in common.real_runs(tspecs, jobs=8, hard_timeout=120):
+        rec = r['rec']
+        sp = r['spec']
+        seq = sp['policy']['commands']
+        chk.cov.case(('real-texts', tuple(seq), sp['decoys']))
+        chk.cov.count('kinds', 'real-child-command-texts')
+        replay = {'real_run': {k: v for k, v in sp.items() if k != 'tmpdir'}}
+        if rec is None or not rec.get('finished'):
+            oracle_fail.append((replay, [f'run with unusual command texts {seq} did not complete: {(rec or {}).get("errors")} {r["stderr"][-200:]}'],
+                                {'stacks': (rec or {}).get('stacks_at_timeout') or (rec or {}).get('stacks'), 'stderr': r['stderr']}))
+            continue
+        try:
+            msgs, info = texts_oracle(rec)
+        except Exception as e:  # noqa
+            msgs, info = [f'the scenario failed: {type(e).__name__}: {e}'], {'addressed': []}
+        for _t, _p, c in info['addressed']:
+            chk.cov.count('command_texts', _text_class(c))
+        for (_t1, _p1, a), (_t2, _p2, b) in zip(info['addressed'], info['addressed'][1:]):
+            if a == b and a not in TEXT_RESUMING:
+                chk.cov.count('command_texts', 'identical-at-consecutive-prompts')
+        if info.get('quit'):
+            chk.cov.count('empty_command', 'the debugger quit (BdbQuit in the script)')
+        if info.get('blank_repeated'):
+            chk.cov.count('whitespace_only_command', 're-executed the command addressed to the previous prompt (Pdb: blank line = repeat; tolerated)')
+        if msgs:
+            oracle_fail.append((replay, msgs, {'commands_sent': rec.get('commands_sent'),
+                                               'prompts': [[h['event']['trace_no'], h['event']['prompt_no'], h['event']['line_no'], h['event']['prompt_text']]
+                                                           for h in rec['hooks'] if h['hook'] == 'on_start_prompt'],
+                                               'exception': str(rec.get('exception'))[-300:]}))
 
     # several traces with open prompts at the same time (one thread's first prompt is withheld until nothing else moves), every
     # genuine answer surrounded by decoys incl. this prompt's number addressed to every other live trace; real trace machinery in-process
